@@ -294,3 +294,61 @@ def gen_case(rng, i):
             o = ("get_ticks", rng.choice([1, 2]))
         ops.append(o)
     return ops + READ_BACK
+
+
+# ---- a tick stream that is still open while the same store appends (monitor only: both modes must agree) ---------
+def stream_interleave_case(rng, dbdir, tag):
+    """n ticks are stored; stream_ticks() is opened and read up to a random position; k more ticks are appended through the
+    same store object; the stream is read to its end.  Per-call and single-connection mode must deliver the same ticks
+    (and a fresh read afterwards must show all n + k).  Returns (failures, facts)."""
+    import asyncio as _a
+    import vloop as _v
+    n = rng.choice([1, 2, 3, 5, 8])
+    k = rng.choice([1, 1, 2])
+    pos = rng.randint(0, n)
+    out = {}
+
+    async def one(single):
+        path = os.path.join(dbdir, "si_%s_%d.db" % (tag, int(single)))
+        for suffix in ("", "-wal", "-shm", "-journal"):
+            if os.path.exists(path + suffix):
+                os.remove(path + suffix)
+        ws = SqliteWorkflowStore(path, single_connection=single)
+        try:
+            for i in range(n):
+                await ws.append_tick("r1", {"k": i})
+            got = []
+            gen = ws.stream_ticks("r1")
+            try:
+                for _ in range(pos):
+                    got.append((await gen.__anext__()).tick_data["k"])
+                for j in range(k):
+                    await ws.append_tick("r1", {"k": 100 + j})
+                while True:
+                    try:
+                        got.append((await gen.__anext__()).tick_data["k"])
+                    except StopAsyncIteration:
+                        break
+            finally:
+                await gen.aclose()
+            after = [t.tick_data["k"] for t in await ws.get_ticks("r1")]
+            return got, after
+        finally:
+            c = ws._persistent_conn
+            if c is not None:
+                c.close()
+
+    async def main():
+        out["percall"] = await one(False)
+        out["single"] = await one(True)
+
+    _v.run(main(), auto=False)
+    fails = []
+    want_after = list(range(n)) + [100 + j for j in range(k)]
+    if out["percall"][0] != out["single"][0]:
+        fails.append("a tick stream opened on %d stored ticks, read up to position %d, then %d ticks appended through the same "
+                     "store: per-call mode delivered %s, single-connection mode %s" % (n, pos, k, out["percall"][0], out["single"][0]))
+    for m in ("percall", "single"):
+        if out[m][1] != want_after:
+            fails.append("%s mode: ticks read back after the interleaved appends are %s, expected %s" % (m, out[m][1], want_after))
+    return fails, dict(n=n, k=k, pos=pos)
